@@ -7,7 +7,8 @@
     source on every run (Gen/EscTables_gen.v, instance [TokGen.gen_tables]) and discharges each condition for them by
     [vm_compute] as a named instance obligation. *)
 From Coq Require Import List NArith Bool.
-From SV Require Import Text.Str Text.Prog Text.ProgProofs Text.Escape Text.EscapeProofs Text.Tokenizer Text.TokenizerProofs.
+From SV Require Import Text.Str Text.Prog Text.ProgProofs Text.Escape Text.EscapeProofs Text.EscPipeline Text.EscPipelineProofs
+  Text.Tokenizer Text.TokenizerProofs.
 Import ListNotations.
 Open Scope N_scope.
 
@@ -20,6 +21,38 @@ Theorem c02_escape_tokenize_inverse : forall T o,
   tokens_flat T o (S n) fuel line lcr (DQ :: escape T ml s ++ [DQ])
   = RTok STRING s (line + raw_lfs T ml s) false :: repeat (RTok EOF [] (line + raw_lfs T ml s) false) n.
 Proof. exact escape_tokenize_inverse. Qed.
+
+(** [escape_text] as the translator reads it from the source is a pipeline [p] of whole-string steps (regex
+    substitutions with the table callback, [str.replace] calls, each conditional on [multiline]).  If the steps that
+    apply in mode [ml] are exactly one substitution whose exclusion string is the one recorded in [T] (the instance
+    obligation [escape_text_is_one_table_substitution_*] — false for e.g. "escape everything, then put the line
+    feeds back with replace"), the function IS the per-character model ... *)
+Theorem c02_escape_text_is_charwise : forall T p ml, single_sub p ml = Some (excl T ml) ->
+  forall s, run_pipeline (esc_table T) p ml s = escape T ml s.
+Proof. exact pipeline_is_escape. Qed.
+
+(** ... and therefore the inverse law holds for the function as written in the source. *)
+Theorem c02_escape_text_tokenize_inverse : forall T p o ml,
+  allow_escapes o = true -> single_sub p ml = Some (excl T ml) -> tbl_ok T ml = true -> dq_not_operator T = true ->
+  forall s n fuel line lcr, (length s + 2 <= fuel)%nat ->
+  tokens_flat T o (S n) fuel line lcr (DQ :: run_pipeline (esc_table T) p ml s ++ [DQ])
+  = RTok STRING s (line + raw_lfs T ml s) false :: repeat (RTok EOF [] (line + raw_lfs T ml s) false) n.
+Proof.
+  intros T p o ml He Hp Hok Hop s n fuel line lcr Hf. rewrite (pipeline_is_escape T p ml Hp s).
+  exact (escape_tokenize_inverse T o He ml Hok Hop s n fuel line lcr Hf).
+Qed.
+
+(** The shape condition is not decoration: a post-processing pipeline is not a per-character map, and breaks the law
+    (backslash 'n' comes back as the empty string: backslash-LF is a line continuation). *)
+Theorem c02_postprocessing_refuted :
+  is_single_sub pp_pipeline true = false
+  /\ run_pipeline pp_table pp_pipeline true [92; 110] = [92; 10]
+  /\ tokens_flat {| esc_table := pp_table; excl_single := []; excl_multi := []; bare_disallowed := []; operators := [];
+                    casefold := fun c => [c] |}
+       {| string_bracket := false; string_parens := true; allow_escapes := true; allow_star_comments := false;
+          preserve_comments := false; colon_operator := false; plus_operator := false |}
+       1 10 1 false (DQ :: run_pipeline pp_table pp_pipeline true [92; 110] ++ [DQ]) = [RTok STRING [] 1 false].
+Proof. vm_compute. repeat split; reflexivity. Qed.
 
 (** The same through the reader state of the real class ([_cur_chunk], [_char_index], chunk iterator), for the text
     supplied as one string or cut into arbitrary chunks (empty ones included). *)
